@@ -251,6 +251,7 @@ theorem single_member_shape (h : d.shape ≠ e.shape) :
   cases checkDtypes <;>
     simp [aequals, diff, dmDiff_dm, hid, dmFlags, failing, h, aequalsOf, Difference.hasDifferences]
 
+/-- same shape, only the criteria names differ: `diff` names `criteria` alone, the matrices are unequal -/
 theorem single_member_criteria (hs : d.shape = e.shape) (h : d.criteria ≠ e.criteria)
     (h1 : d.alternatives = e.alternatives) (h2 : d.objectives = e.objectives)
     (h3 : cellsClose t d.weights e.weights = true) (h4 : dataClose t d.matrix e.matrix = true)
@@ -260,6 +261,7 @@ theorem single_member_criteria (hs : d.shape = e.shape) (h : d.criteria ≠ e.cr
   cases checkDtypes <;>
     simp [aequals, diff, dmDiff_dm, dmFlags, failing, aequalsOf, Difference.hasDifferences, *]
 
+/-- same shape, only the alternative names differ -/
 theorem single_member_alternatives (hs : d.shape = e.shape) (h0 : d.criteria = e.criteria)
     (h : d.alternatives ≠ e.alternatives) (h2 : d.objectives = e.objectives)
     (h3 : cellsClose t d.weights e.weights = true) (h4 : dataClose t d.matrix e.matrix = true)
@@ -269,6 +271,7 @@ theorem single_member_alternatives (hs : d.shape = e.shape) (h0 : d.criteria = e
   cases checkDtypes <;>
     simp [aequals, diff, dmDiff_dm, dmFlags, failing, aequalsOf, Difference.hasDifferences, *]
 
+/-- same shape, only an optimisation sense differs -/
 theorem single_member_objectives (hs : d.shape = e.shape) (h0 : d.criteria = e.criteria)
     (h1 : d.alternatives = e.alternatives) (h : d.objectives ≠ e.objectives)
     (h3 : cellsClose t d.weights e.weights = true) (h4 : dataClose t d.matrix e.matrix = true)
@@ -278,6 +281,7 @@ theorem single_member_objectives (hs : d.shape = e.shape) (h0 : d.criteria = e.c
   cases checkDtypes <;>
     simp [aequals, diff, dmDiff_dm, dmFlags, failing, aequalsOf, Difference.hasDifferences, *]
 
+/-- same shape, only the weights differ beyond the caller's tolerance -/
 theorem single_member_weights (hs : d.shape = e.shape) (h0 : d.criteria = e.criteria)
     (h1 : d.alternatives = e.alternatives) (h2 : d.objectives = e.objectives)
     (h : cellsClose t d.weights e.weights = false) (h4 : dataClose t d.matrix e.matrix = true)
@@ -287,6 +291,7 @@ theorem single_member_weights (hs : d.shape = e.shape) (h0 : d.criteria = e.crit
   cases checkDtypes <;>
     simp [aequals, diff, dmDiff_dm, dmFlags, failing, aequalsOf, Difference.hasDifferences, *]
 
+/-- same shape, only matrix cells differ beyond the caller's tolerance (object dtype: differ at all) -/
 theorem single_member_matrix (hs : d.shape = e.shape) (h0 : d.criteria = e.criteria)
     (h1 : d.alternatives = e.alternatives) (h2 : d.objectives = e.objectives)
     (h3 : cellsClose t d.weights e.weights = true) (h : dataClose t d.matrix e.matrix = false)
@@ -314,12 +319,14 @@ section res
 variable (t : Tol α) (checkDtypes : Bool) (r s : Res α) (hid : r.oid ≠ s.oid) (hk : r.kind = s.kind)
 include hid hk
 
+/-- two results of the same class, only the method name differs -/
 theorem single_member_method (h : r.method ≠ s.method) (h1 : r.alternatives = s.alternatives)
     (h2 : arrClose t r.values s.values = true) (h3 : valClose t r.extra s.extra = true) :
     diff t checkDtypes (.res r) (.res s) = .ok ⟨false, ["method"]⟩ ∧
     aequals t checkDtypes (.res r) (.res s) = .ok false := by
   simp [aequals, diff, resDiff_res, resFlags, failing, aequalsOf, Difference.hasDifferences, *]
 
+/-- only the alternative names (or their number) differ -/
 theorem single_member_result_alternatives (h0 : r.method = s.method) (h : r.alternatives ≠ s.alternatives)
     (h2 : arrClose t r.values s.values = true) (h3 : valClose t r.extra s.extra = true) :
     diff t checkDtypes (.res r) (.res s) = .ok ⟨false, ["alternatives"]⟩ ∧
